@@ -337,6 +337,8 @@ func C10(ctx *core.Ctx) {
 		c10Regexps(ctx, cc)
 		c10SeenSets(ctx, cc)
 		c10EnumMarker(ctx, cc, "C10.R15")
+		c10ResolvedFile(ctx, cc, "C10.R18")
+		globalNodeMutation(ctx, cc, "C10.R19")
 	}
 	gs, err := peg.ParseSource(string(src))
 	if err != nil {
